@@ -57,7 +57,7 @@ void build_stream(const Plan &plan, StreamRef &sr) {
     sr.goff.push_back(go);
     if (l.r.trim && (lr_pol[i] != 1 || lr_k[i] != std::max(2, l.r.tk))) sr.ambiguous_cut = true;   // the page layout must put exactly the granule-bearing packets last on their pages
     if (l.r.bs64) { bool ok2 = false; for (auto &p : sr.ps.pages) if (p.link == i && !p.header) { ok2 = p.completed >= 2; break; } if (!ok2) sr.ambiguous_cut = true; }
-    if (l.r.cut || l.r.bs64) { int ap = 0; for (auto &p : sr.ps.pages) if (p.link == i && !p.header) ap++; if (ap < 2) sr.ambiguous_cut = true; }
+    if (l.r.cut || l.r.bs64) { int ap = 0; for (auto &p : sr.ps.pages) if (p.link == i && !p.header && p.completed > 0) ap++; if (ap < 2) sr.ambiguous_cut = true; }   // pages on which a packet ends: a page holding only the front part of a large packet carries no position
   }
   for (auto &p : sr.ps.pages) if (p.link >= 0 && !p.header && p.granule >= 0) sr.boundaries.push_back(sr.start[p.link] + std::max<int64_t>(0, std::min<int64_t>(p.granule - sr.goff[p.link], sr.ps.links[p.link]->len)));
   std::sort(sr.boundaries.begin(), sr.boundaries.end());
